@@ -13,6 +13,7 @@ use std::rc::Rc;
 
 thread_local! {
     static LAST_PANIC: RefCell<Option<String>> = const { RefCell::new(None) };
+    static GUARD_DEPTH: std::cell::Cell<u32> = const { std::cell::Cell::new(0) };
 }
 
 /// Install a silent panic hook that remembers message and location.
@@ -29,13 +30,20 @@ pub fn install_panic_hook() {
             .location()
             .map(|l| format!("{}:{}", l.file(), l.line()))
             .unwrap_or_default();
+        if GUARD_DEPTH.with(|d| d.get()) == 0 {
+            // a panic of the harness itself: make it visible
+            eprintln!("harness panic: {} @ {}", msg, loc);
+        }
         LAST_PANIC.with(|p| *p.borrow_mut() = Some(format!("{} @ {}", msg, loc)));
     }));
 }
 
 /// Run `f`, turning a panic into `Err(message @ location)`.
 pub fn guard<T, F: FnOnce() -> T>(f: F) -> Result<T, String> {
-    match catch_unwind(AssertUnwindSafe(f)) {
+    GUARD_DEPTH.with(|d| d.set(d.get() + 1));
+    let r = catch_unwind(AssertUnwindSafe(f));
+    GUARD_DEPTH.with(|d| d.set(d.get() - 1));
+    match r {
         Ok(v) => Ok(v),
         Err(_) => Err(LAST_PANIC
             .with(|p| p.borrow_mut().take())
